@@ -128,14 +128,36 @@ func run(c Case) *vk.Violation {
 		return nil
 	}
 	keep := func(l *live) {
+		// results belong to the caller INCLUDING their spare capacity (a caller that appends writes there):
+		// it is overwritten at once; whatever it was shared with shows as a changed result below
+		vk.ScribbleSpare(l.b)
+		for _, p := range l.parts {
+			vk.ScribbleSpare(p)
+		}
 		lives = append(lives, l)
 		if len(lives) > 48 {
 			lives = lives[1:]
 		}
 	}
+	edited := false
 	for step, op := range c.Ops {
 		after := op.K
 		switch op.K {
+		case "editdecoded":
+			// the caller edits, in place, the byte slices of a PDU it decoded earlier (its own value)
+			var pdus []*live
+			for _, l := range lives {
+				if l.pdu != nil {
+					pdus = append(pdus, l)
+				}
+			}
+			if len(pdus) == 0 {
+				continue
+			}
+			l := pdus[op.Idx%len(pdus)]
+			gen.OverwriteOwned(l.pdu)
+			l.snapV = l.bind.Extract(l.pdu)
+			edited = true
 		case "encode":
 			s, v := ref.FromJ(*op.Vals)
 			b := gen.ByID(s.ID())
@@ -193,6 +215,12 @@ func run(c Case) *vk.Violation {
 				inbuf = append(inbuf[:0], img...)
 				if p.IDecode(inbuf) != nil {
 					continue
+				}
+				if edited && s.ID() != "smgp30.LoginResp" {
+					// a caller has edited a value it had decoded earlier: what is decoded NOW must still be what the image carries
+					if d := ref.Diff(s, gen.Normalise(b, v), b.Extract(p)); d != "" {
+						return vk.Violf(s.ID()+"/decoded-value-wrong-after-caller-edited-an-earlier-result", c, "step %d: %s decodes to a value that differs from its image after the caller edited, in place, a value it had decoded earlier (the library serves decoded values from shared storage): %s", step, s.ID(), d)
+					}
 				}
 				keep(&live{step: step, pdu: p, bind: b, snapV: b.Extract(p), fromDecode: true})
 				scribble(inbuf[:cap(inbuf)], byte(step)) // the caller reuses its buffer at once
@@ -463,7 +491,7 @@ var texts = []string{"hello", "1234567@abcdefgh", "中文短信内容测试", "[
 	string(bytes.Repeat([]byte("中文"), 80)), string(bytes.Repeat([]byte("[a"), 100))}
 
 var opGen = rapid.Custom(func(t *rapid.T) Op {
-	k := rapid.SampledFrom([]string{"encode", "encode", "encodebad", "decode", "decode", "decode", "framedecode", "string", "split", "batch", "batch", "rebuild", "ucs2", "scribble", "scribble", "accessor", "codec", "redecode"}).Draw(t, "k")
+	k := rapid.SampledFrom([]string{"encode", "encode", "encodebad", "decode", "decode", "decode", "framedecode", "string", "split", "batch", "batch", "rebuild", "ucs2", "scribble", "scribble", "accessor", "codec", "redecode", "editdecoded"}).Draw(t, "k")
 	op := Op{K: k, Idx: rapid.IntRange(0, 47).Draw(t, "idx")}
 	switch k {
 	case "encodebad":
